@@ -58,7 +58,8 @@ for m in sorted(glob.glob(os.path.join(V, "seeded", "*", "meta.json"))):
         fr = verdict(first) if os.path.exists(first) else []
         fhit = [v for v in fr if "VIOLATION with concrete replay" in v]
         fnf = [v for v in fr if "no-failing-input-found" in v]
-        FIRST[name] = "caught" if fhit else ("no concrete replay (broken obligation only)" if fnf else "missed by the property's own check")
+        if os.path.exists(first):   # (round 10) without the log of that run, keep what meta.json recorded
+            FIRST[name] = "caught" if fhit else ("no concrete replay (broken obligation only)" if fnf else "missed by the property's own check")
         xl = f"/tmp/r2test_{pid}-{kk}.x.log"
         if os.path.exists(xl) and not fhit:
             xh = [v for v in verdict(xl) if "VIOLATION with concrete replay" in v]
@@ -69,7 +70,8 @@ for m in sorted(glob.glob(os.path.join(V, "seeded", "*", "meta.json"))):
             fr = verdict(fl)
             fhit = [v for v in fr if "VIOLATION with concrete replay" in v]
             fnf = [v for v in fr if "no-failing-input-found" in v]
-            FIRST[name] = "caught" if fhit else ("no concrete replay (broken obligation only)" if fnf else "missed by the property's own check")
+            if fr:   # (round 10) a log without a verdict line is a run still in progress
+                FIRST[name] = "caught" if fhit else ("no concrete replay (broken obligation only)" if fnf else "missed by the property's own check")
     if name == "C18-r3-2" and False:
         FIRST[name] = "not reported — judged not to violate C18 as stated (no key, point or secret value changes)"
         det = "not reported, by design (see integrator_note in meta.json)"
